@@ -24,7 +24,10 @@ TDec == /\ IsEvent("dec")
 TFix == /\ IsEvent("fixture")
         /\ bad' = bad \cup Flag(IC!Decode(Ev.tokens, TRUE).ok, "casync-made index not accepted by the specification (grammar too strict)")
                       \cup Flag(Ev.accepted /\ Ev.identical, "casync-made index not re-encoded byte-identically")
-TNext == TEnc \/ TDec \/ TFix
+\* a destination that takes only part of the file: the write must be reported as failed
+TWFault == /\ IsEvent("wfault")
+           /\ bad' = bad \cup Flag(Ev.accept < Ev.size => Ev.err, "an index that did not reach its destination completely was reported as written")
+TNext == TEnc \/ TDec \/ TFix \/ TWFault
 TSpec == TInit /\ [][TNext]_<<l, bad>>
 NoBad == bad = {}
 Constr == TLCSet(1, IF TLCGet(1) < l THEN l ELSE TLCGet(1)) /\ (IF TLCGet(1) = l THEN TLCSet(2, <<0, l>>) ELSE TRUE)
